@@ -685,6 +685,18 @@ func c12Malformed(base c12Stream, r *lib.Rand) []c12Stream {
 		add("sig-upper-case", rep(i+16, 64, strings.ToUpper(string(s[i+16:i+16+64]))))
 		add("sig-empty", rep(i+16, 64, ""))
 		add("sig-keyword-case", rep(i, 1, "C"))
+		// an empty signature on a later chunk / on the final chunk (repo fix 7242bc4: refused at the header)
+		if j := bytes.LastIndex(s, []byte("chunk-signature=")); j > i && j+16+64 <= len(s) {
+			add("sig-empty-final", rep(j+16, 64, ""))
+			// a whole extra chunk that nothing signs, in front of the final chunk: the chain of the other
+			// chunks stays intact (accepted, with three more payload bytes, before 7242bc4)
+			if j >= 2 && s[j-2] == '0' && s[j-1] == ';' {
+				add("unsigned-extra-chunk", ins(j-2, "3;chunk-signature=\r\nxyz\r\n"))
+			}
+			if k2 := bytes.Index(s[i+16:], []byte("chunk-signature=")); k2 >= 0 && i+16+k2 < j {
+				add("sig-empty-later", rep(i+16+k2+16, 64, ""))
+			}
+		}
 	}
 	for n := 0; n < 6; n++ { // random short insertions / deletions
 		at := r.Intn(len(s) + 1)
